@@ -9,18 +9,19 @@ Local Open Scope list_scope.
 Section P5.
   Variable V : Type.
   Variable bin : binop -> V -> V -> V.
+  Variable un : unop -> V -> V.
 
   (* a member defined by arithmetic on parameters / constants: the built tuple holds, at the member's
      position, the value of the expression under the same assignment; the arity is the number of members *)
   Lemma tuple_member_derived (args : nat -> option V) (ms : list (string * (nat * node V))) (nm : string)
       (i : nat) (c : node V) (v : V) :
     Permutation (map (fun m => fst (snd m)) ms) (seq 0 (List.length ms)) ->
-    In (nm, (i, c)) ms -> eval V bin args c = Some v ->
-    exists vs, inst V bin args (NTuple ms) = ITup vs /\ List.length vs = List.length ms /\
+    In (nm, (i, c)) ms -> eval V bin un args c = Some v ->
+    exists vs, inst V bin un args (NTuple ms) = ITup vs /\ List.length vs = List.length ms /\
                nth i vs IMissing = IV v.
   Proof.
     intros P Hin E.
-    destruct (tuple_in_position_order V bin args ms nm i c P Hin) as [vs [E1 [E2 E3]]].
+    destruct (tuple_in_position_order V bin un args ms nm i c P Hin) as [vs [E1 [E2 E3]]].
     exists vs. split; [exact E1|]. split; [exact E2|]. rewrite E3. apply inst_eval. exact E.
   Qed.
 End P5.
